@@ -448,6 +448,10 @@ class WorkerPool:
     tasks: list[GeneratorTask] = []
     timeout_tasks: list[GeneratorTask] = []
     running_workers: set[courier_utils.CourierClient] = set()
+    # The generator result of each attempt is first held in a queue private to
+    # the attempt and only forwarded when this loop counts the task as finished,
+    # an attempt that is re-queued (timeout, disconnected worker) never forwards.
+    attempt_results: dict[futures.Future[Any], queue.SimpleQueue[Any]] = {}
     running_total, finished_cnt, timeout_cnt = 0, 0, 0
     batch_cnt = 0
 
@@ -475,9 +479,10 @@ class WorkerPool:
             logging.info(
                 'chainable: %s', f'submitting task to worker {worker.address}'
             )
+            attempt_result = queue.SimpleQueue()
             aiter_until_complete = _iterate_until_complete(
                 worker.async_iterate(
-                    task, generator_result_queue=generator_result_queue
+                    task, generator_result_queue=attempt_result
                 ),
                 output_queue=output_queue,
             )
@@ -486,6 +491,7 @@ class WorkerPool:
                     aiter_until_complete, event_loop
                 ),
             )
+            attempt_results[task.state] = attempt_result
             running_tasks.append(task)
         while not output_queue.empty():
           batch_cnt += 1
@@ -509,6 +515,9 @@ class WorkerPool:
                 new_failed_tasks.append(task)
             else:
               finished_cnt += 1
+              attempt_result = attempt_results.pop(task.state)
+              while not attempt_result.empty():
+                generator_result_queue.put(attempt_result.get())
           elif task.is_alive:
             still_running_tasks.append(task)
           else:
